@@ -207,6 +207,43 @@ fn part_values(ctx: &Arc<Ctx>) {
 		ctx.outcome_n("powers of two of the whole double range with both neighbours, integers around 2^k (both signs)", 2 * around.len() as u64);
 		ctx.nontrivial_distinct(2 * around.len() as u64);
 	}
+	// texts longer than the parser's 4096-byte read buffer: a padding string of every length that moves each token of
+	// a following value, byte by byte, across the buffer borders at 4096 and 8192 (escapes, 2/3/4-byte characters,
+	// numbers, literals, structural characters each get split at every one of their bytes)
+	{
+		let tail = JsonValue::Array(JsonArray(vec![
+			JsonValue::String("\u{1}\"\\\u{e9}\u{20ac}\u{1F600}\n".into()),
+			JsonValue::Number(-1.5e-7),
+			JsonValue::Boolean(true),
+			JsonValue::Null,
+			JsonValue::Boolean(false),
+			JsonValue::Number(12345678.5),
+			{
+				let mut o = JsonObject::default();
+				o.0.insert("k\u{e9}".into(), JsonValue::Array(JsonArray(vec![JsonValue::String(String::new()), JsonValue::Number(0.0)])));
+				JsonValue::Object(o)
+			},
+		]));
+		let tail_len = stringify(&tail).len();
+		let mut pads: Vec<usize> = vec![];
+		for border in [4096usize, 8192] {
+			for p in border.saturating_sub(tail_len + 24)..=border + 8 {
+				pads.push(p);
+			}
+		}
+		let (pr, tr) = (&pads, &tail);
+		par_for(pads.len(), |i| {
+			for fill in ["a", "\u{e9}"] {
+				let pad: String = fill.repeat(pr[i] / fill.len());
+				roundtrip(ctxr, &JsonValue::Array(JsonArray(vec![JsonValue::String(pad.clone()), tr.clone()])), "text crossing the 4096-byte read buffer");
+				let mut o = JsonObject::default();
+				o.0.insert(pad, tr.clone());
+				roundtrip(ctxr, &JsonValue::Object(o), "text crossing the 4096-byte read buffer");
+			}
+		});
+		ctx.outcome_n("texts whose tokens cross the 4096 / 8192 byte borders of the read buffer at every byte", 4 * pads.len() as u64);
+		ctx.nontrivial_distinct(4 * pads.len() as u64);
+	}
 	// all values of depth <= 3 / width <= 2 over the leaves
 	let leaves: Vec<JsonValue> = vec![JsonValue::Null, JsonValue::Boolean(true), JsonValue::Boolean(false), JsonValue::Number(0.1), JsonValue::Number(-1e21), JsonValue::String("a\"\\\n\u{1}\u{1F600}".into()), JsonValue::String(String::new())];
 	let keys = ["k", "\u{e9}\"\\", ""];
@@ -315,7 +352,17 @@ fn narrowed_ok(key: &str, src: Option<&Value>, got: Option<&Value>) -> Result<()
 
 fn part_containers(ctx: &Arc<Ctx>) {
 	let work = ct::WorkDir::new("c17");
-	let docs = documents();
+	let mut docs: Vec<(&'static str, String)> = documents();
+	// (layer ids in sorted order: the model keeps vector_layers as a map by id, so another order is not expressible by it)
+	// documents larger than the 4096-byte read buffer, a 16 KiB directory area and a 64 KiB block
+	{
+		let layers: Vec<String> = (0..120).map(|i| format!(r#"{{"id":"layer_{i:03}","description":"d\u00e9 {i}","minzoom":{},"maxzoom":{},"fields":{{"name":"String","name:de":"String","rank_{i}":"Number","flag":"Boolean"}}}}"#, i % 5, 5 + i % 9)).collect();
+		docs.push(("120 vector_layers (about 17 KB)", format!(r#"{{"tilejson":"3.0.0","name":"many layers","vector_layers":[{}]}}"#, layers.join(","))));
+		let long: String = (0..9000).map(|i| ["plain ", "\\\" q\\\" ", "\u{e9}\u{20ac} ", "\\n ", "\\\\ "][i % 5]).collect();
+		docs.push(("description of about 70 KB with escapes and non-ASCII characters", format!(r#"{{"tilejson":"3.0.0","name":"long","description":"{long}","attribution":"a"}}"#)));
+		let urls: Vec<String> = (0..300).map(|i| format!(r#""https://tiles{i}.example.org/{{z}}/{{x}}/{{y}}""#)).collect();
+		docs.push(("tiles list with 300 templates", format!(r#"{{"tilejson":"3.0.0","tiles":[{}],"name":"urls"}}"#, urls.join(","))));
+	}
 	let mut tiles = TileMap::new();
 	tiles.insert((3, 4, 2), b"tile".to_vec());
 	tiles.insert((5, 17, 10), b"tile2".to_vec());
@@ -547,7 +594,7 @@ fn part_containers(ctx: &Arc<Ctx>) {
 
 pub fn run(ctx: Arc<Ctx>) {
 	ctx.rule(
-		"values: all 1,112,064 one-character strings; all strings of length <= 3 over 20 escape-class characters (also as object keys); 36 numbers incl. -0, 1e21, 5e-324, max double, 2^53+-1; every number m x 10^e (m <= 999, e in -330..=310), every power of two of the double range with both neighbours, integers around 2^k for k <= 64, all with both signs; all nested values of depth <= 2 and width <= 2 over 7 leaves and three keys, depth 3 over every 401st (quick) / 7th (thorough) depth-2 value; each through stringify -> own parser (equal value) and stringify -> serde_json (same value). \
+		"values: all 1,112,064 one-character strings; all strings of length <= 3 over 20 escape-class characters (also as object keys); 36 numbers incl. -0, 1e21, 5e-324, max double, 2^53+-1; every number m x 10^e (m <= 999, e in -330..=310), every power of two of the double range with both neighbours, integers around 2^k for k <= 64, all with both signs; texts whose tokens cross the 4096 / 8192 byte borders of the parser's read buffer at every byte; all nested values of depth <= 2 and width <= 2 over 7 leaves and three keys, depth 3 over every 401st (quick) / 7th (thorough) depth-2 value; each through stringify -> own parser (equal value) and stringify -> serde_json (same value). \
 		 TileJSON: 7 documents (incl. lists that repeat an entry) x {versatiles, pmtiles, tar, directory} x 3 compressions written by the real writers; PMTiles also at 83 tile counts around the point where the root directory fills its 16 KiB area (the metadata lies right behind it); stored metadata (independently decoded) and the re-opened reader's TileJSON must equal the given document, zoom range and bounds only narrowed, also when the reader's tile compression label is overridden before / after the first access; conversions with flip / swap into all five formats (source document with and without bounds): returned bounds must contain the transformed tiles; served tiles.json checked through the real server without and with --flip-y / --swap-xy over versatiles, pmtiles, directory and tar sources. non-trivial = distinct values / documents",
 	);
 	ctx.assume("serde_json is the 'standard JSON parser'; numbers are compared as f64");
